@@ -15,8 +15,8 @@ def main():
         print(("REPRODUCED " if ok else "NOT-REPRODUCED ") + desc)
         return 1 if ok else 0
     if eng == "E-SYM":
-        from . import esym
-        return esym.replay(rp)
+        from . import esym_units
+        return esym_units.replay(rp)
     if eng == "E-TS":
         from .ets import replay as r
         return r.replay_file(rp)
